@@ -214,16 +214,33 @@ impl<'a> G<'a> {
         }
         ks.join("+")
     }
+    fn maybe_indirect(&mut self, v: String, is_box: bool) -> String {
+        if !self.rng.chance(1, 5) {
+            return v;
+        }
+        let i = self.fresh();
+        if is_box {
+            self.objs.insert(i, Ob::B(v));
+        } else {
+            self.objs.insert(i, Ob::I(v.parse().unwrap_or(0)));
+        }
+        format!("@{}", i)
+    }
     /// inheritable attributes with probability num/den each
     fn attrs(&mut self, d: &mut D, num: u64, den: u64) {
+        // a fifth of the values is given as an indirect reference to a number-array / integer
+        // object (ISO 32000-1 §7.3.10: legal for any value)
         if self.rng.chance(num, den) {
-            d.m = Some(self.boxs());
+            let b = self.boxs();
+            d.m = Some(self.maybe_indirect(b, true));
         }
         if self.rng.chance(num, den * 2) {
-            d.b = Some(self.boxs());
+            let b = self.boxs();
+            d.b = Some(self.maybe_indirect(b, true));
         }
         if self.rng.chance(num, den) {
-            d.r = Some(self.rot());
+            let r = self.rot();
+            d.r = Some(self.maybe_indirect(r, false));
         }
         if self.rng.chance(num, den) {
             if self.rng.chance(1, 4) {
@@ -506,7 +523,7 @@ fn gen_tree(rng: &mut Rng, depth: u32, maxw: u64, budget: i64, mode: u32) -> Cas
                 }
                 7 => {
                     // malformed box
-                    let bx = match g.rng.below(6) {
+                    let bx = match g.rng.below(12) {
                         0 => "0:0:612".to_string(),
                         1 => "j".to_string(),
                         2 => {
@@ -515,6 +532,33 @@ fn gen_tree(rng: &mut Rng, depth: u32, maxw: u64, budget: i64, mode: u32) -> Cas
                             g.objs.insert(i, Ob::B(b));
                             format!("@{}", i)
                         }
+                        6 => {
+                            // reference to a number array of the wrong length / with a name in it
+                            let i = g.fresh();
+                            let b = (*g.rng.pick(&["0:0:612", "0:0:10:20:30", "0:x:612:792", "1:2:3:4"])).to_string();
+                            g.objs.insert(i, Ob::B(b));
+                            format!("@{}", i)
+                        }
+                        7 => {
+                            // reference to an array of references (4 or 3 of them)
+                            let i = g.fresh();
+                            let e = if g.rng.chance(1, 2) { format!("{0},{0},{0},{0}", root) } else { format!("{0},{0},{0}", root) };
+                            g.objs.insert(i, Ob::A(e));
+                            format!("@{}", i)
+                        }
+                        8 => {
+                            // reference to null / an integer / a stream
+                            let i = g.fresh();
+                            let ob = match g.rng.below(3) {
+                                0 => Ob::N,
+                                1 => Ob::I(612),
+                                _ => Ob::S(vec![48, 32, 48]),
+                            };
+                            g.objs.insert(i, ob);
+                            format!("@{}", i)
+                        }
+                        9 => format!("@{}", g.ids.pop().unwrap()), // dangling (free entry)
+                        10 => format!("@{}", anynode),              // a page-tree dictionary
                         3 => "0:x:612:792".to_string(),
                         4 => "0:0:10:20:30".to_string(),
                         _ => "-".to_string().replace('-', "1:2:3:4"),
@@ -531,13 +575,32 @@ fn gen_tree(rng: &mut Rng, depth: u32, maxw: u64, budget: i64, mode: u32) -> Cas
                 }
                 8 => {
                     // rotate: real / indirect / huge
-                    let r = match g.rng.below(5) {
+                    let r = match g.rng.below(9) {
                         0 => "r90".to_string(),
                         1 => {
                             let i = g.fresh();
                             g.objs.insert(i, Ob::I(90));
                             format!("@{}", i)
                         }
+                        5 => {
+                            // reference to an out-of-i32 integer (wraps like a direct one)
+                            let i = g.fresh();
+                            let v = *g.rng.pick(&[4294967386i64, -2147483649, 2147483648, -90]);
+                            g.objs.insert(i, Ob::I(v));
+                            format!("@{}", i)
+                        }
+                        6 => {
+                            // reference to something that is not an integer
+                            let i = g.fresh();
+                            let ob = match g.rng.below(3) {
+                                0 => Ob::N,
+                                1 => Ob::B("0:0:10:10".into()),
+                                _ => Ob::Y("-".into()),
+                            };
+                            g.objs.insert(i, ob);
+                            format!("@{}", i)
+                        }
+                        7 => format!("@{}", g.ids.pop().unwrap()), // dangling (free entry)
                         2 => "4294967386".to_string(),
                         3 => "-2147483649".to_string(),
                         _ => "2147483648".to_string(),
@@ -671,8 +734,129 @@ fn gen_tree(rng: &mut Rng, depth: u32, maxw: u64, budget: i64, mode: u32) -> Cas
     Case::new(req, tags.join(" "))
 }
 
+/// A deep, narrow tree: a spine of `depth` /Pages nodes (8..=40), inheritable attributes set at
+/// random levels (direct or through a reference), a leaf sibling at some levels, 1..=3 leaves at
+/// the bottom; `twist`: 0 = well-formed, 1 = the bottom node's /Kids leads back to a spine node
+/// (kid cycle), 2 = a spine node's /Parent points DOWN the spine (parent cycle), 3 = the root
+/// /Count is wrong, 4 = one spine node is reached through a null / dangling kid next to it.
+fn gen_chain(rng: &mut Rng, depth: u32, twist: u32) -> Case {
+    let mut pool: Vec<u32> = (1..=690).collect();
+    for i in (1..pool.len()).rev() {
+        let j = rng.below(i as u64 + 1) as usize;
+        pool.swap(i, j);
+    }
+    let mut g = G { rng, ids: pool, objs: BTreeMap::new(), order: vec![], pages: vec![], inners: vec![] };
+    let cat = g.fresh();
+    let root = g.fresh();
+    let spine: Vec<u32> = (0..depth).map(|_| g.fresh()).collect();
+    let mut leaves_below: Vec<i64> = vec![0; depth as usize + 1];
+    // side leaves and bottom leaves first, so that counts are known
+    let mut kids_of: Vec<Vec<u32>> = vec![vec![]; depth as usize];
+    for lvl in 0..depth as usize {
+        let parent = spine[lvl];
+        let bottom = lvl + 1 == depth as usize;
+        let nleaf = if bottom { 1 + g.rng.below(3) } else if g.rng.chance(1, 4) { 1 } else { 0 };
+        let before = g.rng.chance(1, 2);
+        let mut leaves = vec![];
+        for _ in 0..nleaf {
+            let id = g.fresh();
+            let mut d = D { t: Some("P".into()), p: Some(parent), ..D::default() };
+            g.attrs(&mut d, 1, 6);
+            g.objs.insert(id, Ob::D(d));
+            g.pages.push(id);
+            leaves.push(id);
+        }
+        leaves_below[lvl] = nleaf as i64;
+        if !bottom {
+            if before {
+                kids_of[lvl].extend(&leaves);
+                kids_of[lvl].push(spine[lvl + 1]);
+            } else {
+                kids_of[lvl].push(spine[lvl + 1]);
+                kids_of[lvl].extend(&leaves);
+            }
+        } else {
+            kids_of[lvl].extend(&leaves);
+        }
+    }
+    let mut total = 0i64;
+    let mut counts = vec![0i64; depth as usize];
+    for lvl in (0..depth as usize).rev() {
+        total += leaves_below[lvl];
+        counts[lvl] = total;
+    }
+    for lvl in 0..depth as usize {
+        let parent = if lvl == 0 { root } else { spine[lvl - 1] };
+        let mut d = D { t: Some("S".into()), p: Some(parent), c: Some(counts[lvl].to_string()), ..D::default() };
+        g.attrs(&mut d, 1, 5);
+        let kids = kids_of[lvl].clone();
+        g.set_kids(&mut d, &kids);
+        g.objs.insert(spine[lvl], Ob::D(d));
+        g.inners.push(spine[lvl]);
+    }
+    let mut rd = D { t: Some("S".into()), c: Some(total.to_string()), ..D::default() };
+    g.attrs(&mut rd, 1, 2);
+    g.set_kids(&mut rd, &[spine[0]]);
+    g.objs.insert(root, Ob::D(rd));
+    let mut kind = "wf";
+    match twist {
+        1 => {
+            let bottom = spine[depth as usize - 1];
+            let back = spine[g.rng.below(depth as u64) as usize];
+            if let Some((h, mut v)) = g.kids_elems(bottom) {
+                let at = g.rng.below(v.len() as u64 + 1) as usize;
+                v.insert(at, back.to_string());
+                g.put_kids_elems(bottom, h, v);
+            }
+            kind = "kidcycle";
+        }
+        2 => {
+            let a = g.rng.below(depth as u64) as usize;
+            let b = a + g.rng.below(depth as u64 - a as u64) as usize;
+            let tgt = spine[b];
+            if let Some(d) = g.dict_mut(spine[a]) {
+                d.p = Some(tgt);
+            }
+            kind = "parentcycle";
+        }
+        3 => {
+            let c = wrong_count(g.rng, total);
+            g.dict_mut(root).unwrap().c = Some(c);
+            kind = "wrongcount";
+        }
+        4 => {
+            let a = spine[g.rng.below(depth as u64) as usize];
+            if let Some((h, mut v)) = g.kids_elems(a) {
+                let e = match g.rng.below(3) {
+                    0 => "n".to_string(),
+                    1 => "x".to_string(),
+                    _ => g.ids.pop().unwrap().to_string(),
+                };
+                let at = g.rng.below(v.len() as u64 + 1) as usize;
+                v.insert(at, e);
+                g.put_kids_elems(a, h, v);
+            }
+            kind = "junkkid";
+        }
+        _ => {}
+    }
+    let mut ids: Vec<u32> = g.objs.keys().copied().collect();
+    for i in (1..ids.len()).rev() {
+        let j = g.rng.below(i as u64 + 1) as usize;
+        ids.swap(i, j);
+    }
+    let objs: Vec<(u32, Ob)> = ids.iter().map(|i| (*i, g.objs[i].clone())).collect();
+    Case::new(show_req(cat, root, &objs), format!("chain k-{} depth{} pages{} nt", kind, depth, if total >= 4 { 4 } else { total }))
+}
+
 fn gen(rng: &mut Rng, tier: Tier) -> Vec<Case> {
     let mut cases = vec![];
+    // deep narrow trees (inheritance through many levels, cycles far from the root)
+    for i in 0..(if tier == Tier::Quick { 60 } else { 1500 }) {
+        let depth = 8 + rng.below(33) as u32;
+        let twist = if i % 2 == 0 { 0 } else { 1 + rng.below(4) as u32 };
+        cases.push(gen_chain(rng, depth, twist));
+    }
     // the MAX_PAGES cap: regular trees just below, at and above 100 000 leaves
     cases.push(Case::new("big 100001 100", "big cap nt"));
     cases.push(Case::new(format!("big {} {}", 300 + rng.below(300), 2 + rng.below(40)), "big nt"));
